@@ -92,6 +92,25 @@ Theorem C20_pdfset_add_frame : forall (H : list item -> Z) s p g s' r k,
 Proof. exact pdfset_add_frame. Qed.
 Print Assumptions C20_pdfset_add_frame.
 
+(* the order in which two PDFs are registered does not matter for any lookup *)
+Theorem C20_pdfset_add_commute : forall (H : list item -> Z) s p1 d1 p2 d2 s1 s12 s2 s21,
+  pdfset_add H s p1 (GDict d1) = (s1, Ok tt) -> pdfset_add H s1 p2 (GDict d2) = (s12, Ok tt) ->
+  pdfset_add H s p2 (GDict d2) = (s2, Ok tt) -> pdfset_add H s2 p1 (GDict d1) = (s21, Ok tt) ->
+  forall g, pdfset_get H s12 g = pdfset_get H s21 g.
+Proof. exact pdfset_add_commute. Qed.
+Print Assumptions C20_pdfset_add_commute.
+
+(* ---- DatasetCollection --------------------------------------------- *)
+(* after every add_datasets / remove_dataset history (rejected and partly
+   executed additions included) the dictionary has unique keys, every dataset is
+   stored under its own name, and get_dataset(n) returns a dataset named n *)
+Theorem C20_dataset_collection : forall ops,
+  (NoDup (od_keys (drun [] ops))
+   /\ forall k o, In (k, o) (drun [] ops) -> oname o = k /\ issub (ocls o) CBase = true)
+  /\ forall n o, dsc_get (drun [] ops) n = Ok o -> oname o = n.
+Proof. exact dataset_collection_keys. Qed.
+Print Assumptions C20_dataset_collection.
+
 (* ---- DataFieldStages ----------------------------------------------- *)
 (* for ALL integers (negative ones in two's complement, as Python's &) *)
 Theorem C20_and_check : forall s a,
